@@ -45,10 +45,10 @@ pub enum ShiftKind {
 
 pub fn shift(kind: ShiftKind) -> PShift {
     match kind {
-        ShiftKind::Closed => PShift { start_loc: 0, start_earliest: 0., start_latest: None, end: Some((0, 1000.)), breaks: vec![], reloads: vec![], required_breaks: vec![], required_offset: false },
-        ShiftKind::Open => PShift { start_loc: 0, start_earliest: 0., start_latest: None, end: None, breaks: vec![], reloads: vec![], required_breaks: vec![], required_offset: false },
-        ShiftKind::TightEnd => PShift { start_loc: 0, start_earliest: 0., start_latest: None, end: Some((0, 160.)), breaks: vec![], reloads: vec![], required_breaks: vec![], required_offset: false },
-        ShiftKind::StartLatest => PShift { start_loc: 0, start_earliest: 0., start_latest: Some(0.), end: Some((0, 1000.)), breaks: vec![], reloads: vec![], required_breaks: vec![], required_offset: false },
+        ShiftKind::Closed => PShift { start_loc: 0, start_earliest: 0., start_latest: None, end: Some((0, 1000.)), breaks: vec![], reloads: vec![], required_breaks: vec![], required_offset: false, recharge: None },
+        ShiftKind::Open => PShift { start_loc: 0, start_earliest: 0., start_latest: None, end: None, breaks: vec![], reloads: vec![], required_breaks: vec![], required_offset: false, recharge: None },
+        ShiftKind::TightEnd => PShift { start_loc: 0, start_earliest: 0., start_latest: None, end: Some((0, 160.)), breaks: vec![], reloads: vec![], required_breaks: vec![], required_offset: false, recharge: None },
+        ShiftKind::StartLatest => PShift { start_loc: 0, start_earliest: 0., start_latest: Some(0.), end: Some((0, 1000.)), breaks: vec![], reloads: vec![], required_breaks: vec![], required_offset: false, recharge: None },
     }
 }
 
@@ -426,8 +426,8 @@ pub fn family_cond(_tier: Tier) -> Vec<PProblem> {
     }
     // two shifts per vehicle
     for n in 2..=4 {
-        let s1 = PShift { start_loc: 0, start_earliest: 0., start_latest: None, end: Some((0, 100.)), breaks: vec![], reloads: vec![], required_breaks: vec![], required_offset: false };
-        let s2 = PShift { start_loc: 0, start_earliest: 300., start_latest: None, end: Some((0, 500.)), breaks: vec![], reloads: vec![], required_breaks: vec![], required_offset: false };
+        let s1 = PShift { start_loc: 0, start_earliest: 0., start_latest: None, end: Some((0, 100.)), breaks: vec![], reloads: vec![], required_breaks: vec![], required_offset: false, recharge: None };
+        let s2 = PShift { start_loc: 0, start_earliest: 300., start_latest: None, end: Some((0, 500.)), breaks: vec![], reloads: vec![], required_breaks: vec![], required_offset: false, recharge: None };
         let mut jobs = deliveries(n);
         jobs[0].tasks[0].places[0].times = vec![(320., 400.)];
         out.push(base(format!("cond/two-shifts/n{n}"), jobs.clone(), vec![vehicle_type("v", 1, &[2], vec![s1.clone(), s2.clone()])]));
@@ -585,7 +585,7 @@ pub fn family_line12() -> Vec<PProblem> {
                 .filter(|i| *i != depot)
                 .map(|i| job(&format!("job{}", i as i64 - 6), vec![task(Delivery, vec![place(i, 1., &[], None)], &[1])]))
                 .collect();
-            let mut v = vehicle_type("my_vehicle", 2, &[6], vec![PShift { start_loc: depot, start_earliest: 0., start_latest: None, end: None, breaks: vec![], reloads: vec![], required_breaks: vec![], required_offset: false }]);
+            let mut v = vehicle_type("my_vehicle", 2, &[6], vec![PShift { start_loc: depot, start_earliest: 0., start_latest: None, end: None, breaks: vec![], reloads: vec![], required_breaks: vec![], required_offset: false, recharge: None }]);
             v.fixed = 10.;
             v.cost_distance = 1.;
             v.cost_time = 1.;
@@ -633,9 +633,9 @@ pub fn family_places(_tier: Tier) -> Vec<PProblem> {
         job("s_mix3", vec![task(Service, vec![place(3, 1., &[(0., 5.)], Some("first")), place(2, 2., &[], None), place(4, 1., &[(0., 5.)], Some("third"))], &[])]),
     ];
     let shifts = [
-        PShift { start_loc: 0, start_earliest: 0., start_latest: None, end: Some((0, 1000.)), breaks: vec![], reloads: vec![], required_breaks: vec![], required_offset: false },
-        PShift { start_loc: 0, start_earliest: 0., start_latest: None, end: Some((2, 1000.)), breaks: vec![], reloads: vec![], required_breaks: vec![], required_offset: false },
-        PShift { start_loc: 0, start_earliest: 0., start_latest: None, end: None, breaks: vec![], reloads: vec![], required_breaks: vec![], required_offset: false },
+        PShift { start_loc: 0, start_earliest: 0., start_latest: None, end: Some((0, 1000.)), breaks: vec![], reloads: vec![], required_breaks: vec![], required_offset: false, recharge: None },
+        PShift { start_loc: 0, start_earliest: 0., start_latest: None, end: Some((2, 1000.)), breaks: vec![], reloads: vec![], required_breaks: vec![], required_offset: false, recharge: None },
+        PShift { start_loc: 0, start_earliest: 0., start_latest: None, end: None, breaks: vec![], reloads: vec![], required_breaks: vec![], required_offset: false, recharge: None },
     ];
     let mut out = vec![];
     for k in 1..=3 {
@@ -771,6 +771,25 @@ pub fn family_reqbreak() -> Vec<PProblem> {
                         let jobs: Vec<PJob> = (0..n).map(|i| job(&format!("d{i}"), vec![task(Delivery, vec![place(1 + i % 4, 2., &[], None)], &[1])])).collect();
                         out.push(base(format!("reqbreak/n{n}/w{wi}/d{duration}/f{fleet}/{}", if offset { "offset" } else { "exact" }), jobs, vec![vehicle_type("v", fleet, &[4], vec![s])]).fit_matrices());
                     }
+                }
+            }
+        }
+    }
+    out
+}
+
+/// F-recharge (experimental feature of the library): a distance limit between recharges and recharge stations.
+pub fn family_recharge() -> Vec<PProblem> {
+    use TaskKind::*;
+    let mut out = vec![];
+    for limit in [160., 210., 320.] {
+        for stations in [vec![(2usize, 5., Some("s2".to_string()))], vec![(2, 5., Some("s2".to_string())), (3, 4., Some("s3".to_string()))], vec![(1, 3., None), (3, 4., None)]] {
+            for picks in [vec![3usize, 4], vec![4], vec![1, 3, 4], vec![2, 4, 4]] {
+                for sk in [ShiftKind::Closed, ShiftKind::Open] {
+                    let mut s = shift(sk);
+                    s.recharge = Some((limit, stations.clone()));
+                    let jobs: Vec<PJob> = picks.iter().enumerate().map(|(i, l)| job(&format!("d{i}"), vec![task(Delivery, vec![place(*l, 2., &[], None)], &[1])])).collect();
+                    out.push(base(format!("recharge/l{limit}/st{}/{picks:?}/{sk:?}", stations.len()), jobs, vec![vehicle_type("v", 2, &[4], vec![s])]).fit_matrices());
                 }
             }
         }
